@@ -310,7 +310,8 @@ var c13Witnesses = []string{
 	"SELECT mean(value) FROM cpu GROUP BY *, time(1m, 10s)", "SELECT mean(v) FROM m GROUP BY /nomatch/, /x/, time(5m, 1s)", "SELECT mean(v) FROM m GROUP BY *, *, *, time(1m, 1s), host", "SELECT mean(v) FROM m GROUP BY time(1m), *",
 	"SELECT mean(*) + max(*) FROM cpu", "SELECT top(*, *, 3) FROM cpu", "SELECT max(/^a/) - min(/^b/) FROM cpu", "SELECT f(*, *) + g(/x/, /y/) * h(*) FROM m GROUP BY *, /a/, *",
 	"SELECT v FROM m WHERE f(time > 0)", "SELECT v FROM m WHERE host = 'a' AND within(time >= 10s, time < 20s) = 1", "SELECT v FROM m WHERE v > floor(10, now() < time)", "SELECT v FROM m WHERE g(f(time = 1), (time > 2)) AND time < 3",
-	"SELECT time FROM cpu", "SELECT time AS ts INTO dst FROM cpu", "SELECT time, time FROM m",
+	"SELECT * FROM (SELECT top(value, host, 2) FROM cpu)", "SELECT /./ FROM (SELECT bottom(value, host, region, 2), n FROM cpu) GROUP BY *", "SELECT mean(*) FROM (SELECT top(value, host, 2) FROM cpu GROUP BY region)",
+	"SELECT 1 + 2 FROM cpu", "SELECT value, 2 * 3, 100 - 1 FROM cpu", "SELECT top(value, host, 2), 100 - 1 FROM cpu", "SELECT time FROM cpu", "SELECT time AS ts INTO dst FROM cpu", "SELECT time, time FROM m",
 	"SELECT v FROM m WHERE 1 <> time", "SELECT v FROM m WHERE 1 != time", "SELECT v FROM m WHERE time AND 1", "SELECT v FROM m WHERE 1 OR time", "DELETE FROM m WHERE 5 - time", "SHOW TAG KEYS WHERE 7 * time",
 	"SELECT top() FROM m", "SELECT bottom() FROM m", "SELECT top(a) FROM m", "SELECT v FROM m GROUP BY time(0s, 1s)", "SELECT v FROM m GROUP BY time(0s, now())", "SELECT v FROM m GROUP BY time(1m - 1m, now())", "SELECT v FROM m GROUP BY time(1m, now())",
 	"SELECT v FROM m GROUP BY time(0s, '2000-01-01T00:00:00Z')", "SELECT v FROM m GROUP BY time(2m - 1m - 1m, now() - 1h)", "SELECT x FROM (SELECT top(value) FROM cpu)", "SELECT x FROM (SELECT bottom(value) FROM cpu)",
